@@ -168,6 +168,11 @@ def build_cases(tb, rnd, tier):
         dh={'diffie-hellman-group-exchange-sha256': (2048, False)}, sw=ossh)
     add('kex', ['diffie-hellman-group-exchange-sha256'], 'server', 'diffie-hellman-group-exchange-sha256', 'sized',
         dh={'diffie-hellman-group-exchange-sha256': (3072, True)}, sw=ossh)
+    # the two group-exchange methods measured at different sizes: each line carries the size and the notes of its own measurement
+    for b1, b256 in ((2048, 3072), (3072, 2048), (1024, 2048), (4096, 1024)):
+        for sw in (None, ossh):
+            add('kex', ['diffie-hellman-group-exchange-sha1', 'diffie-hellman-group-exchange-sha256', 'curve25519-sha256'], 'server', 'diffie-hellman-group-exchange-sha256', 'sized',
+                dh={'diffie-hellman-group-exchange-sha1': (b1, False), 'diffie-hellman-group-exchange-sha256': (b256, False)}, sw=sw)
     return cases, meta
 
 
